@@ -31,6 +31,14 @@ SHAPES = {
     "v+w?v+k": (2, 1, lambda v, k, eq: (v[0] + v[1] == v[0] + k[0]) if eq else (v[0] + v[1] != v[0] + k[0])),
     "vk?k": (1, 2, lambda v, k, eq: (v[0] * k[0] == k[1]) if eq else (v[0] * k[0] != k[1])),
     "v-v+w?k": (2, 1, lambda v, k, eq: (v[0] - v[0] + v[1] == k[0]) if eq else (v[0] - v[0] + v[1] != k[0])),
+    # operators on compound expressions: Expr.__radd__, Expr - Expr, Expr * k, k * Expr, IntVar - Expr, Expr on both sides
+    "k+(v+w)?u": (3, 1, lambda v, k, eq: (k[0] + (v[0] + v[1]) == v[2]) if eq else (k[0] + (v[0] + v[1]) != v[2])),
+    "(v+w)-(u+k)?k": (3, 2, lambda v, k, eq: ((v[0] + v[1]) - (v[2] + k[0]) == k[1]) if eq else ((v[0] + v[1]) - (v[2] + k[0]) != k[1])),
+    "(v+w)k?u": (3, 1, lambda v, k, eq: ((v[0] + v[1]) * k[0] == v[2]) if eq else ((v[0] + v[1]) * k[0] != v[2])),
+    "k(v-w)?u": (3, 1, lambda v, k, eq: (k[0] * (v[0] - v[1]) == v[2]) if eq else (k[0] * (v[0] - v[1]) != v[2])),
+    "v-(w+k)?u": (3, 1, lambda v, k, eq: (v[0] - (v[1] + k[0]) == v[2]) if eq else (v[0] - (v[1] + k[0]) != v[2])),
+    "v+k?wk": (2, 2, lambda v, k, eq: (v[0] + k[0] == v[1] * k[1]) if eq else (v[0] + k[0] != v[1] * k[1])),
+    "k-(v+w)?u": (3, 1, lambda v, k, eq: (k[0] - (v[0] + v[1]) == v[2]) if eq else (k[0] - (v[0] + v[1]) != v[2])),
     "v-w?u-v": (3, 0, lambda v, k, eq: (v[0] - v[1] == v[2] - v[0]) if eq else (v[0] - v[1] != v[2] - v[0])),
 }
 
@@ -182,6 +190,12 @@ def global_programs(rng, n_each, big=False):
             doms.append((lo, lo + rng.randint(1, 3)))
         progs.append({"vars": doms, "cons": [("cumulative", list(range(n)), [rng.randint(1, 3) for _ in range(n)],
                                               [rng.randint(1, 2) for _ in range(n)], rng.randint(1, 3))]})
+    # degenerate global constraints: empty and singleton argument lists, zero durations, a task that alone exceeds the capacity
+    for cons in ([("circuit", [])], [("no_overlap", [], [])], [("cumulative", [], [], [], 1)], [("alldiff", [])], [("alldiff", [1])],
+                 [("no_overlap", [0], [2])], [("cumulative", [0], [2], [3], 2)], [("cumulative", [1], [0], [3], 2)],
+                 [("cumulative", [0, 1], [2, 0], [1, 5], 1)], [("no_overlap", [0, 1], [0, 0])], [("sum", "eq", [2], 1)], [("sum", "ge", [], 0)],
+                 [("sum", "le", [1], -5)], [("sum", "eq", [0], 9)]):
+        progs.append({"vars": [(0, 2), (1, 2), (0, 1)], "cons": cons})
     # cumulative with more than 10 simultaneously active start literals
     progs.append({"vars": [(0, 3)] * 4, "cons": [("cumulative", [0, 1, 2, 3], [4, 4, 4, 4], [1, 1, 1, 1], 2)]})
     progs.append({"vars": [(0, 5)] * 3, "cons": [("cumulative", [0, 1, 2], [3, 3, 3], [1, 1, 1], 1)]})
